@@ -1,6 +1,7 @@
 """./check configuration for C05 (see verif_props.py)."""
 
 PROP = {'technique': 'Lean refinement of the index-arithmetic decoders to a label-level specification (longest aligned suffix), masking invariant, totality with explicit idna contracts shown necessary; differential tie incl. bounded-exhaustive label sequences',
+ 'driver_modules': ['GolibsVerif.Driver.C04'],
  'module': 'GolibsVerif.Theorems.C05',
  'modules': ['GolibsVerif.Theorems.C05', 'GolibsVerif.Theorems.C05Idna'],
  'namespace': 'GolibsVerif.C05',
